@@ -10,6 +10,19 @@
   * `uuidCodes`          — google/uuid `UUID.String` (lower-case hex 8-4-4-4-12)
   * `normalizeCode`      — /repo/cbc/code.go `NormalizeCode`
 
+  and validator models for what the schemas constrain through references:
+
+  * `codeValidate`, `requiredCode`, `keyValidate`, `taxCountryValidate`
+                         — `cbc.Code.Validate` (alone / behind `validation.Required`),
+                           `cbc.Key.Validate`, `l10n.TaxCountryCode.Validate`
+  * `extValueValidate`, `extensionsValidate`
+                         — /repo/tax/extensions.go `Extensions.Validate`
+  * `rateTotalValidate`, `categoryTotalValidate`, `totalValidate`
+                         — /repo/tax/totals.go `(*RateTotal|*CategoryTotal|*Total).Validate`
+  * `identityCodeGeneric`, `mxNational`
+                         — /repo/tax/identity.go `(*Identity).Validate` (generic rules of `code`),
+                           /repo/regimes/mx/tax_identity.go `ValidateTaxCode`
+
   Texts are lists of code points, as in Model/Regex.  Core Lean only.
   Domain of faithfulness: every int64 value (−2^63 included, since the fix of
   `Amount.String`), `exp ≤ 18` (beyond, Go's `intPow` wraps), years 0…9999 and
@@ -111,5 +124,125 @@ def dropInvalid (s : List Nat) : List Nat := s.filter fun c => isAlnum c || isSe
 def normalizeCode (s : List Nat) : List Nat := trimSpace (collapse false (dropInvalid s))
 
 def text (cs : List Nat) : String := String.ofList (cs.map Char.ofNat)
+
+/-! ### the compiled leaf patterns -/
+section Patterns
+open Regex
+
+def alnumCls : RE := .cls ⟨[(65, 90), (97, 122), (48, 57)], false⟩
+def sepCls : RE := .cls ⟨[(46, 46), (45, 45), (47, 47), (32, 32), (95, 95), (58, 58)], false⟩
+/-- one more block: an optional separator and a run of alphanumerics -/
+def blockRE : RE := .cat (RE.opt sepCls) (RE.plus alnumCls)
+/-- what `^[A-Za-z0-9]+([\.\-\/ _\:]?[A-Za-z0-9]+)*$` (cbc.CodePattern) compiles to -/
+def codeRE : RE := .cat (RE.plus alnumCls) (.star blockRE)
+
+def lowerK : CClass := ⟨[(97, 122)], false⟩
+def lowerDigitK : CClass := ⟨[(97, 122), (48, 57)], false⟩
+def keyBodyK : CClass := ⟨[(97, 122), (48, 57), (45, 45), (43, 43)], false⟩
+/-- what `^(?:[a-z]|[a-z0-9][a-z0-9-+]*[a-z0-9])$` (cbc.KeyPattern) compiles to -/
+def keyRE : RE := .alt (.cls lowerK) (.cat (.cat (.cls lowerDigitK) (.star (.cls keyBodyK))) (.cls lowerDigitK))
+
+def digitK : CClass := ⟨[(48, 57)], false⟩
+def upperDigitK : CClass := ⟨[(65, 90), (48, 57)], false⟩
+/-- what `^[A-Z0-9]+$` (tax.IdentityCodePattern, the rule Go applies to identity codes) compiles to -/
+def identityRE : RE := RE.plus (.cls upperDigitK)
+/-- `[A-Z0-9Ñ&]` -/
+def identitySchemaK : CClass := ⟨[(65, 90), (48, 57), (209, 209), (38, 38)], false⟩
+/-- what `^[A-Z0-9Ñ&]+$` (tax.IdentityCodeSchemaPattern, published for `tax.Identity.code`) compiles to -/
+def identitySchemaRE : RE := RE.plus (.cls identitySchemaK)
+/-- `[A-ZÑ\&]` -/
+def mxLetterK : CClass := ⟨[(65, 90), (209, 209), (38, 38)], false⟩
+/-- what `^([A-ZÑ\&]{n})([0-9]{6})([A-Z0-9]{3})$` compiles to (regimes/mx: n = 4 person, n = 3 company) -/
+def mxCodeRE (n : Nat) : RE :=
+  .cat (.cat (RE.pow (.cls mxLetterK) n) (RE.pow (.cls digitK) 6)) (RE.pow (.cls upperDigitK) 3)
+def mxPersonRE : RE := mxCodeRE 4
+def mxCompanyRE : RE := mxCodeRE 3
+
+end Patterns
+
+/-! ### validators (as repaired): codes, keys, extension values, stored tax summaries, identity codes
+
+  `invopop/validation` semantics used below: `Required` fails on the empty text and on an empty
+  (or nil) slice; `Length`, `Match` and `In` pass the empty text; a value that implements
+  `Validate()` is validated after the rules of its field; `Length` counts bytes (`len(string)`). -/
+section Validators
+open Regex
+
+/-- bytes of the UTF-8 encoding -/
+def utf8Len : List Nat → Nat
+  | [] => 0
+  | c :: r => (if c < 0x80 then 1 else if c < 0x800 then 2 else if c < 0x10000 then 3 else 4) + utf8Len r
+
+/-- `cbc.Code.Validate`: `Length(1, 32)`, `Match(CodePatternRegexp)` -/
+def codeValidate (s : List Nat) : Bool :=
+  s.isEmpty || (decide (1 ≤ utf8Len s) && decide (utf8Len s ≤ 32) && codeRE.matchL s)
+
+/-- `validation.Validate(code, validation.Required)`: present, then the code's own `Validate` -/
+def requiredCode (s : List Nat) : Bool := !s.isEmpty && codeValidate s
+
+/-- `cbc.Key.Validate`: `Match(KeyValidationRegexp)`, `Length(1, 64)` -/
+def keyValidate (s : List Nat) : Bool :=
+  s.isEmpty || (keyRE.matchL s && decide (1 ≤ utf8Len s) && decide (utf8Len s ≤ 64))
+
+/-- `l10n.TaxCountryCode.Validate`: `validation.In(validTaxCountryCodes()...)` -/
+def taxCountryValidate (countries : List (List Nat)) (s : List Nat) : Bool := s.isEmpty || countries.contains s
+
+/-- what `tax.ExtensionForKey` returns for a key, as far as `Extensions.Validate` looks at it -/
+structure ExtKeyDef where
+  /-- `values[].code`; empty = no list -/
+  codes : List (List Nat)
+  /-- the definition's `pattern` as Go's `regexp` reads it (`none` = no pattern; a pattern that does
+      not compile rejects everything) -/
+  pattern : Option (List Nat → Bool)
+
+/-- one member of `Extensions.Validate` (second loop): `kd = ExtensionForKey(k)`.
+    Since the repair every value is first held to `validation.Required` and `cbc.Code.Validate`. -/
+def extValueValidate (kd : Option ExtKeyDef) (v : List Nat) : Bool :=
+  match kd with
+  | none => false
+  | some kd =>
+    requiredCode v &&
+    (kd.codes.isEmpty || kd.codes.contains v) &&
+    (match kd.pattern with | none => true | some m => m v)
+
+/-- `Extensions.Validate`: every key well formed, then every member -/
+def extensionsValidate (defOf : List Nat → Option ExtKeyDef) (em : List (List Nat × List Nat)) : Bool :=
+  em.all (fun kv => keyValidate kv.1) && em.all (fun kv => extValueValidate (defOf kv.1) kv.2)
+
+/-- the members of a `tax.RateTotal` that have rules (`base`, `amount`, `percent`, `surcharge` are
+    amounts and percentages: always present, always printed inside their patterns) -/
+structure RateTotalV where
+  key : List Nat
+  country : List Nat
+  ext : List (List Nat × List Nat)
+
+/-- `tax.CategoryTotal`: a nil `rates` slice (printed `null`) and an empty one are both `[]` here,
+    `validation.Required` refuses both -/
+structure CategoryTotalV where
+  code : List Nat
+  rates : List RateTotalV
+
+/-- `(*RateTotal).Validate`: `Field(&rt.Key)`, `Field(&rt.Country)`, `Field(&rt.Ext)` -/
+def rateTotalValidate (countries : List (List Nat)) (defOf : List Nat → Option ExtKeyDef) (rt : RateTotalV) : Bool :=
+  keyValidate rt.key && taxCountryValidate countries rt.country && extensionsValidate defOf rt.ext
+
+/-- `(*CategoryTotal).Validate`: `Field(&ct.Code, Required)`, `Field(&ct.Rates, Required)` -/
+def categoryTotalValidate (countries : List (List Nat)) (defOf : List Nat → Option ExtKeyDef) (ct : CategoryTotalV) : Bool :=
+  requiredCode ct.code && !ct.rates.isEmpty && ct.rates.all (rateTotalValidate countries defOf)
+
+/-- `(*Total).Validate`: `Field(&t.Categories)` -/
+def totalValidate (countries : List (List Nat)) (defOf : List Nat → Option ExtKeyDef) (cats : List CategoryTotalV) : Bool :=
+  cats.all (categoryTotalValidate countries defOf)
+
+/-- the generic rules of `(*Identity).Validate` for the code of a country that is not in
+    `IdentityCodeValidationIgnore`: `Match(IdentityCodePatternRegexp)`, then `cbc.Code.Validate`
+    (the regime's own check can only refuse more) -/
+def identityCodeGeneric (s : List Nat) : Bool := (s.isEmpty || identityRE.matchL s) && codeValidate s
+
+/-- regimes/mx `ValidateTaxCode`, all that is applied to the code of an MX identity (the generic
+    rules are skipped): empty, or one of the two RFC shapes -/
+def mxNational (s : List Nat) : Bool := s.isEmpty || mxPersonRE.matchL s || mxCompanyRE.matchL s
+
+end Validators
 
 end GoblVerif.Leaves
